@@ -38,6 +38,7 @@ type c05req struct {
 	Out     string // outcome when done: "ok:T", "jerr:..", "ctx:canceled", "ctx:deadline", "anyerror", "fault"
 	Pending bool   // it was transmitted and registered (OnCancel applies if it ends without a reply)
 	Replied bool   // completed by a reply from the peer
+	Lenient bool   // completed by a malformed reply bearing its id: OnCancel may or may not run
 }
 
 type c05state struct {
@@ -146,6 +147,19 @@ func c05step(s c05state, ev string, f c05faults, tok string) []c05state {
 	switch ev {
 	case "call1", "call2", "call3":
 		issue("r" + ev[4:])
+	case "callc": // a call whose context has already ended when it is issued
+		issue("r4")
+		if r := n.Reqs["r4"]; r.St == 1 {
+			r.St, r.Out = 2, "ctx:canceled"
+			n.Reqs["r4"] = r
+		}
+	case "mal1": // a malformed member bearing request 1's id
+		return received(func(st *c05state, _ bool) {
+			if r := st.Reqs["r1"]; r.St == 1 {
+				r.St, r.Out, r.Replied, r.Lenient = 2, "anyerror", true, true
+				st.Reqs["r1"] = r
+			}
+		})
 	case "notify":
 		tag := fmt.Sprintf("n%d", len(n.Notes)+1)
 		switch {
@@ -295,6 +309,12 @@ func (w *c05world) do(ev string, tok string) {
 	case "call3":
 		ctx, cancel := context.WithCancel(context.Background())
 		issue("r3", ctx, cancel)
+	case "callc":
+		ctx, cancel := context.WithCancel(context.Background())
+		cancel()
+		issue("r4", ctx, cancel)
+	case "mal1":
+		rig.Reply(fmt.Sprintf(`{"jsonrpc":"2.0","id":%s,"result":"x","bogus":true}`, idOf("r1", 9003)))
 	case "notify":
 		w.notes++
 		rig.GoNotify(fmt.Sprintf("n%d", w.notes), context.Background(), "note", nil)
@@ -526,14 +546,24 @@ func c05exec(c *vt.Ctx, hist []string, f c05faults, pipeLike bool, ctrl *sched.C
 				if id != "" {
 					hooks = rig.Log.Count("oncancel", id)
 				}
-				replied := strings.HasPrefix(info, "ok:") || strings.HasPrefix(info, "jerr:-7:")
-				switch {
-				case replied && hooks != 0:
-					c.Failf("OnCancel ran %d times for %s (id %s), which was answered with %q", hooks, tag, id, info)
-				case !replied && r.Pending && hooks != 1 && len(states) == 1:
-					c.Failf("OnCancel ran %d times for %s (id %s), which was pending and ended with %q without a reply", hooks, tag, id, info)
-				case !replied && hooks > 1:
-					c.Failf("OnCancel ran %d times for %s (id %s)", hooks, tag, id)
+				// admissible OnCancel counts over the states still standing
+				okCount := map[int]bool{}
+				for _, st := range states {
+					sr := st.Reqs[tag]
+					switch {
+					case sr.Lenient:
+						okCount[0], okCount[1] = true, true
+					case sr.Replied:
+						okCount[0] = true
+					case sr.Pending:
+						okCount[1] = true
+					default:
+						okCount[0] = true
+					}
+				}
+				_ = r
+				if !okCount[hooks] {
+					c.Failf("OnCancel ran %d times for %s (id %s), which ended with %q (answered by the peer: %v, was pending: %v)", hooks, tag, id, info, states[0].Reqs[tag].Replied, states[0].Reqs[tag].Pending)
 				}
 			}
 			if ex := rig.Log.Find("h.exit", "cb"); len(ex) == 1 {
@@ -553,10 +583,10 @@ func c05exec(c *vt.Ctx, hist []string, f c05faults, pipeLike bool, ctrl *sched.C
 }
 
 func c05alphabet() []string {
-	return []string{"call2", "call3", "notify", "reply1", "reply2", "err1", "cancel1", "cancel2", "tmo", "close", "eof", "fail", "malformed", "cbstart", "cbrel"}
+	return []string{"call2", "call3", "callc", "mal1", "notify", "reply1", "reply2", "err1", "cancel1", "cancel2", "tmo", "close", "eof", "fail", "malformed", "cbstart", "cbrel"}
 }
 
-var c05races = []string{"reply1||cancel1", "reply1||close", "cancel1||close", "eof||close", "reply1||eof", "call3||close", "reply2||tmo", "cbrel||close", "reply1||fail", "notify||close", "malformed||reply1"}
+var c05races = []string{"callc||close", "callc||reply1", "mal1||cancel1", "reply1||cancel1", "reply1||close", "cancel1||close", "eof||close", "reply1||eof", "call3||close", "reply2||tmo", "cbrel||close", "reply1||fail", "notify||close", "malformed||reply1"}
 
 func c05nontrivial(h []string) bool {
 	ends := 0
@@ -575,7 +605,7 @@ func init() {
 	vt.Register(&vt.Check{
 		Prop:  "C05",
 		Level: "fault_enumeration",
-		Rule: "histories 'call1' + up to 3 (4 in thorough) events over {call2 (deadline), call3, notify, reply1, reply2, error reply, cancel1, cancel2, deadline passes, Close, peer EOF, transport failure, malformed record, " +
+		Rule: "histories 'call1' + up to 3 (4 in thorough) events over {call2 (deadline), call3, a call issued with an already-ended context, notify, malformed member bearing a pending id, reply1, reply2, error reply, cancel1, cancel2, deadline passes, Close, peer EOF, transport failure, malformed record, " +
 			"server callback with stubborn handler, its release} and racing pairs (reply||cancel, reply||Close, cancel||Close, EOF||Close, ...), settle + state-set reference model after every event; " +
 			"fault enumeration: for every history of length <= 3 the k-th Send and the k-th Recv of the client's channel fail, for every k up to the number the fault-free run performed; channels whose Close does / does not unblock Recv; " +
 			"delay-bounded schedules on the racing histories. distinct_nontrivial = distinct (history, fault, flavour, delay set) containing at least two ending events",
